@@ -196,3 +196,48 @@ def effect_skeleton(repo, spec):
 
 
 register_extractor('effect_skeleton', effect_skeleton)
+
+
+# ------------------------------------------------------------------ section tables (C08)
+def section_parsers(repo, spec):
+    """all section tuples registered with @SectionLineParser.section_parser(...) in a class,
+    plus the ones its base class registers (given in spec['inherited'])"""
+    src = Source(repo, spec['file'])
+    cls = src.find_def(spec['cls'])
+    secs = [list(s) for s in spec.get('inherited', [])]
+    for item in cls.body:
+        if isinstance(item, ast.FunctionDef):
+            for dec in item.decorator_list:
+                if isinstance(dec, ast.Call) and ast.unparse(dec.func).endswith('section_parser'):
+                    names = []
+                    for a in dec.args:
+                        if not (isinstance(a, ast.Constant) and isinstance(a.value, str)):
+                            raise TranslateError(f"{spec['file']}:{dec.lineno}: non-literal section name")
+                        names.append(a.value)
+                    if names not in secs:
+                        secs.append(names)
+    where, sha = src.stamp(cls)
+    rows = "; ".join("[" + "; ".join(coq_string(n) for n in s) + "]" for s in secs)
+    text = (f"(* {spec['name']} <- {where} sha256={sha} *)\n"
+            f"Definition {spec['name']} : list (list string) := [{rows}].\n")
+    return text, {'name': spec['name'], 'where': where, 'sha256': sha}
+
+
+def method_source_hash(repo, spec):
+    """sha256 of the source of the listed methods: a change there is reported as a broken tie
+    for hand-written models that mirror them (no semantic content is extracted)"""
+    import hashlib
+    src = Source(repo, spec['file'])
+    parts = []
+    for q in spec['funcs']:
+        node = src.find_def(q)
+        seg = ast.unparse(node)
+        parts.append(f"({coq_string(q)}, {coq_string(hashlib.sha256(seg.encode()).hexdigest())})")
+    where, sha = src.stamp(src.find_def(spec['funcs'][0]))
+    text = (f"(* {spec['name']} <- {spec['file']} *)\n"
+            f"Definition {spec['name']} : list (string * string) := [{'; '.join(parts)}].\n")
+    return text, {'name': spec['name'], 'where': spec['file'], 'sha256': sha}
+
+
+register_extractor('section_parsers', section_parsers)
+register_extractor('method_source_hash', method_source_hash)
